@@ -3639,7 +3639,7 @@ func ruleTableSeekAlwaysAsksIndex(c *Ctx, r *Reporter) {
 	}
 	bad, path := MustPass(fn, exits, func(i ssa.Instruction) bool {
 		call, ok := i.(*ssa.Call)
-		if !ok || call.Call.StaticCallee() == nil || call.Call.StaticCallee().Name() != "Seek" || len(call.Call.Args) < 2 {
+		if !ok || call.Call.StaticCallee() == nil || !strings.HasPrefix(call.Call.StaticCallee().Name(), "Seek") || len(call.Call.Args) < 2 {
 			return false
 		}
 		return isLoadOfField(call.Call.Args[0], idxF) && call.Call.Args[1] == ssa.Value(fn.Params[1])
@@ -3648,7 +3648,7 @@ func ruleTableSeekAlwaysAsksIndex(c *Ctx, r *Reporter) {
 		r.Bad(cons, c.InsPos(bad), "Seek can answer without having asked the index for the target: the answer then comes from whatever block an earlier call left loaded — a backward seek across a block boundary lands on the first key of the loaded block and skips every entry in between", c.PathString(path)...)
 		return
 	}
-	r.OK(cons, c.FnPos(fn), fmt.Sprintf("all %d exit(s) that can report success lie behind indexIterator.Seek(target)", len(exits)))
+	r.OK(cons, c.FnPos(fn), fmt.Sprintf("all %d exit(s) that can report success lie behind a positioning of indexIterator by the target (Seek/SeekFloor)", len(exits)))
 }
 
 // ruleOneTombstoneTracker (round 8): engine deletes are recorded in the coordinator's tombstone tracker; the executor's
@@ -3965,14 +3965,30 @@ func ruleStateDurationSinceLatestEntry(c *Ctx, r *Reporter) {
 	ok := false
 	why := ""
 	var pos ssa.Instruction
-	for _, w := range IndexWalks(fn) {
+	hosts := []*ssa.Function{fn}
+	AllInstrs(fn, false, func(_ *ssa.Function, ins ssa.Instruction) { // the search may live in an unexported same-receiver helper
+		if call, ok := ins.(*ssa.Call); ok {
+			if h := call.Call.StaticCallee(); h != nil && h != fn && len(h.Blocks) > 0 && h.Object() != nil && !h.Object().Exported() && recvTypeName(h) != "" && recvTypeName(h) == recvTypeName(fn) {
+				hosts = append(hosts, h)
+			}
+		}
+	})
+	var walks []*IndexWalk
+	hostOf := map[*GenericLoop]*ssa.Function{}
+	for _, h := range hosts {
+		for _, w := range IndexWalks(h) {
+			walks = append(walks, w)
+			hostOf[w.Loop] = h
+		}
+	}
+	for _, w := range walks {
 		if w.Field == nil || !strings.HasPrefix(w.Field.Name(), "transitions") {
 			continue
 		}
 		found = true
 		pos = w.Loop.Header.Instrs[0]
 		early := false
-		for _, b := range fn.Blocks {
+		for _, b := range hostOf[w.Loop].Blocks {
 			if !w.Loop.Contains(b) || b == w.Loop.Header {
 				continue
 			}
@@ -3999,4 +4015,994 @@ func ruleStateDurationSinceLatestEntry(c *Ctx, r *Reporter) {
 	}
 	_ = pos
 	r.Check(ok, cons, c.FnPos(fn), "the latest transition into the current state is found", why)
+}
+
+// sharedReaderParts: the struct types that every concurrent user of one sstable.Reader shares — the reader itself and
+// whatever it holds (directly or through slices/pointers) that is declared in this module.
+func sharedReaderParts(c *Ctx) map[*types.Named]bool {
+	out := map[*types.Named]bool{}
+	var walk func(t types.Type, d int)
+	walk = func(t types.Type, d int) {
+		if d > 6 {
+			return
+		}
+		switch x := t.(type) {
+		case *types.Pointer:
+			walk(x.Elem(), d+1)
+		case *types.Slice:
+			walk(x.Elem(), d+1)
+		case *types.Array:
+			walk(x.Elem(), d+1)
+		case *types.Map:
+			walk(x.Elem(), d+1)
+		case *types.Named:
+			if x.Obj().Pkg() == nil || !strings.HasPrefix(x.Obj().Pkg().Path(), modPath) || out[x] {
+				return
+			}
+			st, ok := x.Underlying().(*types.Struct)
+			if !ok {
+				return
+			}
+			out[x] = true
+			for i := 0; i < st.NumFields(); i++ {
+				walk(st.Field(i).Type(), d+1)
+			}
+		}
+	}
+	if root := c.Named("pkg/sstable", "Reader"); root != nil {
+		walk(root, 0)
+	}
+	return out
+}
+
+// ruleSharedReaderPartsWriteUnderLock (round 9): one sstable.Reader serves every concurrent Get, scan and compaction
+// read of its file; the engine's read paths hold shared locks at most, and an iterator's own mutex excludes nobody but
+// that iterator's users. A field of the reader or of a component it holds (I/O manager, block fetcher, block cache,
+// parsed index block, filters) may therefore be written after construction only under an exclusive lock that belongs to
+// one of those shared objects — a "last block" memo, a lazily filled field, a statistics counter written plainly is a
+// data race between readers (torn pair offset/block: the wrong block handed out, an existing key reported missing).
+func ruleSharedReaderPartsWriteUnderLock(c *Ctx, r *Reporter) {
+	r.Rule("shared-reader-parts-written-under-their-lock", 2)
+	parts := sharedReaderParts(c)
+	if len(parts) < 3 {
+		r.Unresolved("sstable.Reader and its components", "fewer than three shared component types found")
+		return
+	}
+	qual := func(n *types.Named) string {
+		return strings.TrimPrefix(n.Obj().Pkg().Path()[strings.LastIndex(n.Obj().Pkg().Path(), "/")+1:], "") + "." + n.Obj().Name()
+	}
+	ownLock := func(id string) bool {
+		for n := range parts {
+			if strings.HasPrefix(id, qual(n)+".") {
+				return true
+			}
+		}
+		return false
+	}
+	partOf := func(v ssa.Value) *types.Named {
+		t := v.Type()
+		if p, ok := t.Underlying().(*types.Pointer); ok {
+			t = p.Elem()
+		}
+		n, _ := t.(*types.Named)
+		if n != nil && parts[n] {
+			return n
+		}
+		return nil
+	}
+	li := c.Locks()
+	seen := map[string]bool{}
+	nTypes := map[*types.Named]bool{}
+	// the read path: everything the methods of the reader, of its iterators and of its components can reach. (The
+	// same types have a write side — the table writer fills filters and footers — which nobody shares.)
+	reach := map[*ssa.Function]bool{}
+	var work []*ssa.Function
+	for _, fn := range c.KevoFns {
+		if pkgOf(fn) == "pkg/sstable" && fn.Signature.Recv() != nil {
+			switch recvTypeName(fn) {
+			case "sstable.Reader", "sstable.Iterator", "sstable.IteratorAdapter", "sstable.BlockFetcher", "sstable.BlockCache", "sstable.IOManager":
+				reach[fn] = true
+				work = append(work, fn)
+			}
+		}
+	}
+	for len(work) > 0 {
+		fn := work[len(work)-1]
+		work = work[:len(work)-1]
+		AllInstrs(fn, true, func(_ *ssa.Function, ins ssa.Instruction) {
+			if ci, ok := ins.(ssa.CallInstruction); ok {
+				for _, callee := range c.Callees(ci) {
+					if c.InKevo(callee) && !reach[callee] {
+						reach[callee] = true
+						work = append(work, callee)
+					}
+				}
+			}
+		})
+	}
+	for _, fn := range c.KevoFns {
+		if !reach[topParent(fn)] {
+			continue
+		}
+		AllInstrs(fn, false, func(_ *ssa.Function, ins ssa.Instruction) {
+			var base ssa.Value
+			var fv *types.Var
+			switch x := ins.(type) {
+			case *ssa.Store:
+				addr := x.Addr
+				if ia, ok := addr.(*ssa.IndexAddr); ok { // element of an array/slice field
+					if ld, ok := ia.X.(*ssa.UnOp); ok {
+						addr = ld.X
+					} else {
+						addr = ia.X
+					}
+				}
+				fa, ok := addr.(*ssa.FieldAddr)
+				if !ok {
+					return
+				}
+				base, fv = fa.X, fieldVarOf(fa)
+			case *ssa.MapUpdate:
+				ld, ok := x.Map.(*ssa.UnOp)
+				if !ok {
+					return
+				}
+				fa, ok := ld.X.(*ssa.FieldAddr)
+				if !ok {
+					return
+				}
+				base, fv = fa.X, fieldVarOf(fa)
+			default:
+				return
+			}
+			n := partOf(base)
+			if n == nil || fv == nil {
+				return
+			}
+			if _, fresh := base.(*ssa.Alloc); fresh {
+				return // under construction: not shared yet
+			}
+			nTypes[n] = true
+			cons := qual(n) + "." + fv.Name() + "@" + FnName(fn)
+			if seen[cons] {
+				return
+			}
+			held := li.HeldAt(ins)
+			ok := held == nil
+			for id, mode := range held {
+				if mode == "W" && ownLock(id) {
+					ok = true
+				}
+			}
+			if !ok && isConstructorOf(fn, n) {
+				ok = true
+			}
+			seen[cons] = true
+			r.Check(ok, cons, c.InsPos(ins), "written under an exclusive lock of the shared reader objects (or while the object is being built)",
+				"a field of an object shared by every concurrent reader of the table file is written with no exclusive lock of the reader's own held (held: "+held.String()+"): concurrent Gets and scans hold shared locks at most, so two of them race on this field — with a memo of two fields a reader can pair one call's offset with another call's block")
+		})
+	}
+	if len(nTypes) == 0 {
+		r.Info("sstable.Reader and its components", "-", "no post-construction write to a shared reader component found")
+	}
+}
+
+// isConstructorOf: fn returns a *T / T that it allocated itself and the store is to that allocation's chain (the usual
+// New… function filling in fields after the literal); approximated by "fn is a package-level function (no receiver)
+// whose result types include T".
+func isConstructorOf(fn *ssa.Function, n *types.Named) bool {
+	fn = topParent(fn)
+	if fn.Signature.Recv() != nil {
+		return false
+	}
+	res := fn.Signature.Results()
+	for i := 0; i < res.Len(); i++ {
+		t := res.At(i).Type()
+		if p, ok := t.(*types.Pointer); ok {
+			t = p.Elem()
+		}
+		if t == types.Type(n) {
+			return true
+		}
+	}
+	return false
+}
+
+// mustPassInvoke: does every exit of fn (all returns) pass an interface call `method` on a value whose type name ends
+// with ifaceSuffix — directly, or through a static call of a module function for which the same holds (depth-bounded)?
+// A call made inside a function literal does not count: whether and when a closure runs is its receiver's business
+// (sync.Once, a cache, a pool), which is exactly what this predicate is there to exclude.
+func mustPassInvoke(c *Ctx, fn *ssa.Function, ifaceSuffix, method string, depth int) (ssa.Instruction, []*ssa.BasicBlock) {
+	var rets []ssa.Instruction
+	for _, ret := range Returns(fn) {
+		rets = append(rets, ret)
+	}
+	return MustPass(fn, rets, func(i ssa.Instruction) bool {
+		call, ok := i.(*ssa.Call)
+		if !ok {
+			return false
+		}
+		if call.Call.IsInvoke() {
+			return call.Call.Method.Name() == method && strings.HasSuffix(call.Call.Value.Type().String(), ifaceSuffix)
+		}
+		if h := call.Call.StaticCallee(); h != nil && depth > 0 && len(h.Blocks) > 0 && c.InKevo(h) {
+			bad, _ := mustPassInvoke(c, h, ifaceSuffix, method, depth-1)
+			return bad == nil
+		}
+		return false
+	})
+}
+
+// ruleFacadeReadsStorageEveryTime (round 9): a Get that is invoked after a write has returned must see that write, so
+// the answer of EngineFacade.Get has to come from a storage lookup made DURING this call: every exit behind the
+// closed-check passes storage.Get, in the function itself or in a helper on every path of which it is called. A lookup
+// wrapped in a function literal (sync.OnceValues, singleflight-style sharing, a memo) is not made by this call on every
+// path — a reader that joins an earlier reader's lookup returns a value read before it was invoked.
+func ruleFacadeReadsStorageEveryTime(c *Ctx, r *Reporter) {
+	r.Rule("facade-reads-storage-every-time", 2)
+	for _, m := range [][2]string{{"Get", "Get"}, {"IsDeleted", "IsDeleted"}} {
+		fn := c.Func("pkg/engine", "EngineFacade", m[0])
+		cons := "engine.EngineFacade." + m[0]
+		if fn == nil {
+			if m[0] == "IsDeleted" {
+				continue
+			}
+			r.Unresolved(cons, "not found")
+			continue
+		}
+		var rets []ssa.Instruction
+		for _, ret := range Returns(fn) {
+			if ClassifyReturn(ret) == ExitFailure && len(ret.Results) > 0 {
+				if _, isCall := ReturnValue(ret, len(ret.Results)-1).(*ssa.Call); !isCall {
+					if g := globalLoad(ReturnValue(ret, len(ret.Results)-1)); g != nil {
+						continue // the closed / refused exits return a sentinel without reading
+					}
+				}
+			}
+			rets = append(rets, ret)
+		}
+		bad, path := MustPass(fn, rets, func(i ssa.Instruction) bool {
+			call, ok := i.(*ssa.Call)
+			if !ok {
+				return false
+			}
+			if call.Call.IsInvoke() {
+				return call.Call.Method.Name() == m[1] && strings.HasSuffix(call.Call.Value.Type().String(), "interfaces.StorageManager")
+			}
+			if h := call.Call.StaticCallee(); h != nil && len(h.Blocks) > 0 && c.InKevo(h) {
+				b, _ := mustPassInvoke(c, h, "interfaces.StorageManager", m[1], 2)
+				return b == nil
+			}
+			return false
+		})
+		if bad != nil {
+			r.Bad(cons, c.InsPos(bad), "an answer of "+m[0]+" does not come from a storage lookup made during this call (no call of storage."+m[1]+" on the path, or only inside a function literal that something else decides to run): a reader can be handed the result of a lookup that started before it was invoked — after a write that had already returned, it reads the overwritten value", c.PathString(path)...)
+			continue
+		}
+		r.OK(cons, c.FnPos(fn), "every answering exit passes storage."+m[1]+" called by this invocation")
+	}
+}
+
+// ruleValueWrappersKeepNil (round 9): in this code base a nil value IS the deletion marker below the merging layer —
+// composite.HierarchicalIterator and the adapters infer a tombstone from Value() == nil. A Value() that hands out a
+// copy must therefore keep nil nil and empty empty: make+copy (nil becomes empty: tombstones turn into live keys with
+// value "") and append(nil, v...) (empty becomes nil: empty values turn into tombstones) are allowed only behind a nil
+// test; bytes.Clone / slices.Clone keep both.
+func ruleValueWrappersKeepNil(c *Ctx, r *Reporter) {
+	r.Rule("value-copies-keep-nil-nil", 8)
+	nilTested := func(cond ssa.Value) (bool, bool) {
+		v, trueIsNonNil, ok := nilTest(cond)
+		if !ok || v == nil || !strings.HasSuffix(v.Type().String(), "[]byte") {
+			return false, false
+		}
+		if trueIsNonNil {
+			return true, false
+		}
+		return false, true
+	}
+	for _, fn := range c.KevoFns {
+		if fn.Name() != "Value" || fn.Signature.Recv() == nil || fn.Signature.Params().Len() != 0 || fn.Signature.Results().Len() != 1 || fn.Signature.Results().At(0).Type().String() != "[]byte" {
+			continue
+		}
+		if strings.HasPrefix(pkgOf(fn), "pkg/client") || strings.HasPrefix(pkgOf(fn), "pkg/grpc") {
+			continue // above the wire: deletion is not encoded as nil there
+		}
+		cons := FnName(fn)
+		var bad *ssa.Return
+		for _, ret := range Returns(fn) {
+			v := ReturnValue(ret, 0)
+			fresh := false
+			switch x := v.(type) {
+			case *ssa.MakeSlice:
+				fresh = true
+			case *ssa.Call:
+				if b, ok := x.Call.Value.(*ssa.Builtin); ok && b.Name() == "append" {
+					fresh = true
+				}
+			case *ssa.Slice:
+				if _, ok := x.X.(*ssa.MakeSlice); ok {
+					fresh = true
+				}
+			}
+			if fresh && !GuardedBy(ret.Block(), nilTested) {
+				bad = ret
+			}
+		}
+		if bad != nil {
+			r.Bad(cons, c.InsPos(bad), "Value() returns a freshly built slice (make+copy or append) on a path where the source was not tested for nil: below the merging layer nil means 'deleted' and empty means 'the empty value' — make+copy turns a tombstone into a live key with value \"\", append(nil, v...) turns an empty value into a tombstone. (bytes.Clone keeps both, or copy behind `if v == nil { return nil }`.)")
+			continue
+		}
+		r.OK(cons, c.FnPos(fn), "returns the wrapped value as it is, or a copy that keeps nil nil")
+	}
+}
+
+// ruleLogOpenFailsOnlyOnIO (round 9): whatever a crash left in a log file is the READ loop's business — its error classes
+// decide between 'end of log', 'skip the damaged record' and 'fatal', and only 'fatal' sends recovery to its give-up arm
+// (every log moved aside, the engine opens empty). wal.OpenReader runs before that classification: a failing exit there
+// that is decided by the file's size or content, not by a failed system call, turns a torn first record into total loss.
+func ruleLogOpenFailsOnlyOnIO(c *Ctx, r *Reporter) {
+	r.Rule("log-open-fails-only-on-io-errors", 1)
+	fn := c.Func("pkg/wal", "", "OpenReader")
+	cons := "wal.OpenReader"
+	if fn == nil {
+		r.Unresolved(cons, "not found")
+		return
+	}
+	okF := callOKFact(c, func(call *ssa.Call) bool { return true })
+	failed := func(cond ssa.Value) (bool, bool) {
+		t, f := okF(cond)
+		return f, t
+	}
+	n := 0
+	for _, ret := range Returns(fn) {
+		if ClassifyReturn(ret) != ExitFailure {
+			continue
+		}
+		n++
+		if !GuardedBy(ret.Block(), failed) {
+			r.Bad(cons, c.InsPos(ret), "OpenReader can fail without a system call having failed (a test on the file's size or content): the replay loop's damage classes never see this file — the error is fatal for ReplayWALDir, recovery gives up, moves every log file aside and the engine opens empty. A log whose first record was torn by a crash is an ordinary crash artefact")
+			return
+		}
+	}
+	r.OK(cons, c.FnPos(fn), fmt.Sprintf("%d failing exit(s), each behind a failed call", n))
+}
+
+// nameSuffixOf: the literal text a string value certainly ends with ("" = unknown; endsWithCallerText = the value ends
+// with text supplied by the caller, e.g. a format string that ends in a verb).
+func nameSuffixOf(v ssa.Value, d int) (suffix string, endsWithCallerText bool) {
+	if d > 6 || v == nil {
+		return "", false
+	}
+	if s, ok := constString(v); ok {
+		return s, false
+	}
+	switch x := v.(type) {
+	case *ssa.BinOp:
+		if x.Op == token.ADD {
+			if s, ok := constString(x.Y); ok && s != "" {
+				return s, false
+			}
+			return nameSuffixOf(x.Y, d+1)
+		}
+	case *ssa.MakeInterface:
+		return nameSuffixOf(x.X, d+1)
+	case *ssa.Parameter:
+		return "", true
+	case *ssa.Call:
+		sn := staticName(x)
+		switch sn {
+		case "fmt.Sprintf":
+			f, ok := constString(x.Call.Args[0])
+			if !ok {
+				return "", false
+			}
+			// text after the last verb
+			last := -1
+			for i := 0; i < len(f); i++ {
+				if f[i] == '%' {
+					if i+1 < len(f) && f[i+1] == '%' {
+						i++
+						continue
+					}
+					j := i + 1
+					for j < len(f) && !((f[j] >= 'a' && f[j] <= 'z') || (f[j] >= 'A' && f[j] <= 'Z')) {
+						j++
+					}
+					last = j
+					i = j
+				}
+			}
+			if last < 0 {
+				return f, false
+			}
+			if last+1 >= len(f) {
+				return "", true // ends with a verb: the tail is an argument's text
+			}
+			return f[last+1:], false
+		case "path/filepath.Join", "path.Join":
+			if len(x.Call.Args) == 1 {
+				if el := sliceLiteralElems(x.Call.Args[0]); len(el) > 0 {
+					return nameSuffixOf(el[len(el)-1], d+1)
+				}
+			}
+		case "path/filepath.Base", "path.Base", "path/filepath.Clean":
+			return "", true
+		}
+	}
+	return "", false
+}
+
+// ruleTempNamesInvisibleToLoaders (round 9): a table file is written under a temporary name and renamed when complete; a
+// crash in between leaves the temporary file behind. The directory scans that load tables at open select by extension,
+// so the temporary name must not carry a selected extension — otherwise the half-written file is opened as a table, the
+// open fails and the database cannot be reopened although the log holds every acknowledged write.
+func ruleTempNamesInvisibleToLoaders(c *Ctx, r *Reporter) {
+	r.Rule("temp-names-invisible-to-loaders", 1)
+	nfm := c.Func("pkg/sstable", "", "NewFileManager")
+	cons := "sstable.NewFileManager:temporary-name"
+	if nfm == nil {
+		r.Unresolved("sstable.NewFileManager", "not found")
+		return
+	}
+	// extensions the loaders select
+	exts := map[string]bool{}
+	for _, fn := range c.KevoFns {
+		if !strings.HasPrefix(pkgOf(fn), "pkg/engine") && !strings.HasPrefix(pkgOf(fn), "pkg/compaction") {
+			continue
+		}
+		AllInstrs(fn, false, func(_ *ssa.Function, ins ssa.Instruction) {
+			switch x := ins.(type) {
+			case *ssa.BinOp:
+				if x.Op != token.EQL && x.Op != token.NEQ {
+					return
+				}
+				for _, pair := range [][2]ssa.Value{{x.X, x.Y}, {x.Y, x.X}} {
+					if call, ok := pair[0].(*ssa.Call); ok && staticName(call) == "path/filepath.Ext" {
+						if s, ok := constString(pair[1]); ok && s != "" {
+							exts[s] = true
+						}
+					}
+				}
+			case *ssa.Call:
+				if staticName(x) == "strings.HasSuffix" {
+					if s, ok := constString(x.Call.Args[1]); ok && strings.HasPrefix(s, ".") {
+						exts[s] = true
+					}
+				}
+			}
+		})
+	}
+	if len(exts) == 0 {
+		r.Undecided(cons, c.FnPos(nfm), "no extension test found in the table loaders")
+		return
+	}
+	var create *ssa.Call
+	AllInstrs(nfm, false, func(_ *ssa.Function, ins ssa.Instruction) {
+		if call, ok := ins.(*ssa.Call); ok {
+			switch staticName(call) {
+			case "os.Create", "os.OpenFile":
+				create = call
+			}
+		}
+	})
+	if create == nil {
+		r.Undecided(cons, c.FnPos(nfm), "no os.Create/os.OpenFile in NewFileManager")
+		return
+	}
+	var list []string
+	for e := range exts {
+		list = append(list, e)
+	}
+	sort.Strings(list)
+	suffix, callerText := nameSuffixOf(create.Call.Args[0], 0)
+	switch {
+	case callerText:
+		r.Bad(cons, c.InsPos(create), "the temporary name ENDS with the caller's file name: for a table x.sst it ends in .sst, which the loaders select ("+strings.Join(list, ", ")+") — a crash between create and rename leaves a half-written file that the next open tries to load as a table and fails on")
+	case suffix == "":
+		r.Undecided(cons, c.InsPos(create), "the end of the temporary name could not be determined")
+	default:
+		ext := suffix
+		if i := strings.LastIndex(suffix, "."); i >= 0 {
+			ext = suffix[i:]
+		}
+		r.Check(!exts[ext], cons, c.InsPos(create), "the temporary name ends in "+fmt.Sprintf("%q", suffix)+", which no loader selects ("+strings.Join(list, ", ")+")",
+			"the temporary name ends in "+fmt.Sprintf("%q", suffix)+", an extension the loaders select: a crash between create and rename leaves a half-written file that the next open tries to load as a table and fails on")
+	}
+}
+
+// ruleNoUnguardedDivisionOnOpenPath (round 9): opening the database after a crash must succeed whatever the log contains;
+// a panic on that path is a database that cannot be opened. In the functions recovery runs (storage.Manager.recoverFromWAL
+// and what it calls in this module) an integer division or remainder by a value that is not a non-zero constant must be
+// guarded by a test of that divisor — counters of "entries recovered" are legitimately zero when the first record is damaged.
+func ruleNoUnguardedDivisionOnOpenPath(c *Ctx, r *Reporter) {
+	r.Rule("no-unguarded-division-on-the-open-path", 0)
+	root := c.Func("pkg/engine/storage", "Manager", "recoverFromWAL")
+	if root == nil {
+		r.Unresolved("storage.Manager.recoverFromWAL", "not found")
+		return
+	}
+	reach := map[*ssa.Function]bool{root: true}
+	work := []*ssa.Function{root}
+	for len(work) > 0 {
+		fn := work[len(work)-1]
+		work = work[:len(work)-1]
+		AllInstrs(fn, true, func(_ *ssa.Function, ins ssa.Instruction) {
+			if ci, ok := ins.(ssa.CallInstruction); ok {
+				for _, callee := range c.Callees(ci) {
+					if c.InKevo(callee) && !reach[callee] {
+						reach[callee] = true
+						work = append(work, callee)
+					}
+				}
+			}
+		})
+	}
+	n := 0
+	for _, fn := range c.KevoFns {
+		if !reach[topParent(fn)] {
+			continue
+		}
+		AllInstrs(fn, false, func(_ *ssa.Function, ins ssa.Instruction) {
+			bo, ok := ins.(*ssa.BinOp)
+			if !ok || (bo.Op != token.QUO && bo.Op != token.REM) {
+				return
+			}
+			if b, ok := bo.Type().Underlying().(*types.Basic); !ok || b.Info()&types.IsInteger == 0 {
+				return
+			}
+			if k, isK := constInt(bo.Y); isK && k != 0 {
+				return
+			}
+			n++
+			div := stripConv(bo.Y)
+			tested := func(cond ssa.Value) (bool, bool) {
+				cb, ok := cond.(*ssa.BinOp)
+				if !ok {
+					return false, false
+				}
+				x, y := stripConv(cb.X), stripConv(cb.Y)
+				isDiv := func(v ssa.Value) bool { return v == div || sameValue(v, div) }
+				kx, xK := constInt(x)
+				ky, yK := constInt(y)
+				switch {
+				case isDiv(x) && yK && ky == 0:
+					switch cb.Op {
+					case token.GTR, token.NEQ:
+						return true, false
+					case token.EQL, token.LEQ:
+						return false, true
+					}
+				case isDiv(y) && xK && kx == 0:
+					switch cb.Op {
+					case token.LSS, token.NEQ:
+						return true, false
+					case token.EQL, token.GEQ:
+						return false, true
+					}
+				case isDiv(x) && yK && ky > 0 && (cb.Op == token.GEQ || cb.Op == token.GTR):
+					return true, false
+				}
+				return false, false
+			}
+			cons := FnName(fn) + ":" + bo.Op.String() + " " + Path(bo.Y)
+			r.Check(GuardedBy(bo.Block(), tested), cons, c.InsPos(bo), "the divisor is tested against zero on every path to the division",
+				"an integer division on the recovery path whose divisor is not tested: with a value of 0 — a counter of recovered entries is 0 when the first record of the log is damaged — opening the database panics, and panics again at every later open")
+		})
+	}
+	if n == 0 {
+		r.Info("storage.Manager.recoverFromWAL", c.FnPos(root), fmt.Sprintf("no integer division by a variable in the %d functions recovery reaches", len(reach)))
+	}
+}
+
+// ruleSourcesDoNotHideTombstones (round 9): a deletion marker does its work in the MERGE — the newest source's tombstone
+// shadows the older sources' versions of the key. Every iterator below the merging layer (memtable, table, block,
+// transaction buffer, and the bounding/filtering wrappers around them) therefore hands tombstones on like any other
+// entry: its positioning and stepping functions do not look at whether an entry is a deletion. A source that steps over
+// "its own" tombstones (at the start, at the end, anywhere) lets the older version of the key through: a deleted key
+// reappears in scans although Get says not found.
+func ruleSourcesDoNotHideTombstones(c *Ctx, r *Reporter) {
+	r.Rule("sources-hand-tombstones-to-the-merge", 20)
+	merging := map[string]bool{"composite.HierarchicalIterator": true, "engine.MergedIterator": true, "iterator.HierarchicalIterator": true}
+	for _, fn := range c.KevoFns {
+		if fn.Signature.Recv() == nil || fn.Parent() != nil {
+			continue
+		}
+		switch fn.Name() {
+		case "SeekToFirst", "SeekToLast", "Seek", "Next":
+		default:
+			continue
+		}
+		rt := recvTypeName(fn)
+		if rt == "" || merging[rt] || strings.HasPrefix(pkgOf(fn), "pkg/client") || strings.HasPrefix(pkgOf(fn), "pkg/grpc") || strings.HasPrefix(pkgOf(fn), "cmd/") {
+			continue
+		}
+		// an iterator type: has IsTombstone
+		hasTomb := false
+		if n, ok := deref(fn.Signature.Recv().Type()).(*types.Named); ok {
+			ms := types.NewMethodSet(types.NewPointer(n))
+			for i := 0; i < ms.Len(); i++ {
+				if ms.At(i).Obj().Name() == "IsTombstone" {
+					hasTomb = true
+				}
+			}
+		}
+		if !hasTomb {
+			continue
+		}
+		cons := FnName(fn)
+		var bad ssa.Instruction
+		what := ""
+		for _, h := range withSameReceiverHelpers(fn) {
+			switch x := h.ins.(type) {
+			case *ssa.Call:
+				name := ""
+				if x.Call.IsInvoke() {
+					name = x.Call.Method.Name()
+				} else if f := x.Call.StaticCallee(); f != nil {
+					name = f.Name()
+				}
+				if name == "IsTombstone" || name == "IsDeleted" {
+					bad, what = h.at, "asks "+name+"()"
+				}
+			case *ssa.FieldAddr:
+				if fv := fieldVarOf(x); fv != nil && (fv.Name() == "IsDelete" || fv.Name() == "IsTombstone" || fv.Name() == "Deleted") {
+					bad, what = h.at, "reads the "+fv.Name()+" flag"
+				}
+			case *ssa.Field:
+				if fv := fieldVarOf(x); fv != nil && (fv.Name() == "IsDelete" || fv.Name() == "IsTombstone" || fv.Name() == "Deleted") {
+					bad, what = h.at, "reads the "+fv.Name()+" flag"
+				}
+			}
+		}
+		if bad != nil {
+			r.Bad(cons, c.InsPos(bad), "a positioning function of an iterator below the merging layer "+what+": where such an iterator rests must not depend on whether an entry is a deletion marker — the marker has to reach the merge to shadow the older versions of its key; a source that steps over it lets a deleted key reappear in scans (Get still says not found)")
+			continue
+		}
+		r.OK(cons, c.FnPos(fn), "positions and steps without looking at deletion markers")
+	}
+}
+
+// ruleRotationsAreSerialised (round 9): storage.Manager.rotateWAL reads the current log, creates a new one, seeds its
+// counter from the old log and publishes it. Two rotations that overlap seed two new logs from the same old one: writes
+// acknowledged on the first are followed by writes stamped with the same numbers on the second (sequence numbers go
+// backwards, one number on two writes). Writers are kept out by the log's ROTATING status, other rotations only by a
+// lock — so ONE exclusive lock must be held at every call of rotateWAL (the flush path holds flushMu and not mu; the
+// explicit RotateWAL held mu and not flushMu until the repair).
+func ruleRotationsAreSerialised(c *Ctx, r *Reporter) {
+	r.Rule("rotations-are-serialised", 1)
+	rot := c.Func("pkg/engine/storage", "Manager", "rotateWAL")
+	cons := "storage.Manager.rotateWAL:callers"
+	if rot == nil {
+		r.Unresolved("storage.Manager.rotateWAL", "not found")
+		return
+	}
+	li := c.Locks()
+	var common map[string]bool
+	var sites []string
+	var first ssa.Instruction
+	for _, e := range c.Callers(rot) {
+		if e.Site == nil || !c.InKevo(e.Caller.Func) {
+			continue
+		}
+		if first == nil {
+			first = e.Site
+		}
+		held := li.HeldAt(e.Site)
+		if held == nil {
+			continue // unreachable
+		}
+		w := map[string]bool{}
+		for id, mode := range held {
+			if mode == "W" {
+				w[id] = true
+			}
+		}
+		sites = append(sites, FnName(e.Caller.Func)+" "+held.String())
+		if common == nil {
+			common = w
+		} else {
+			for id := range common {
+				if !w[id] {
+					delete(common, id)
+				}
+			}
+		}
+	}
+	sort.Strings(sites)
+	if len(sites) == 0 {
+		r.Undecided(cons, c.FnPos(rot), "no caller of rotateWAL found")
+		return
+	}
+	var ids []string
+	for id := range common {
+		ids = append(ids, id)
+	}
+	sort.Strings(ids)
+	pos := c.FnPos(rot)
+	if first != nil {
+		pos = c.InsPos(first)
+	}
+	r.Check(len(ids) > 0, cons, pos, fmt.Sprintf("every call of rotateWAL holds %s exclusively (%d call sites)", strings.Join(ids, ", "), len(sites)),
+		"no single lock is held exclusively at every call of rotateWAL ("+strings.Join(sites, "; ")+"): a rotation started from one caller can overlap a rotation started from another — both read the same current log and both seed their new log with its counter; writes acknowledged on the first new log are followed by writes carrying the same sequence numbers on the second")
+}
+
+// ruleHandOverAlwaysTaken (round 9): WAL.UpdateNextSequence is the only way a log's counter is handed to its successor
+// (rotation) or restored (recovery). The one legitimate reason not to take the value is that it is not larger than the
+// counter. Any other way out without the store — a range check, a status check — drops the hand-over on exactly the
+// inputs it selects, and the new log then starts again at 1.
+func ruleHandOverAlwaysTaken(c *Ctx, r *Reporter) {
+	r.Rule("hand-over-always-taken", 1)
+	fn := c.Func("pkg/wal", "WAL", "UpdateNextSequence")
+	fld := c.Field("pkg/wal", "WAL", "nextSequence")
+	cons := "wal.WAL.UpdateNextSequence"
+	if fn == nil || fld == nil || len(fn.Params) < 2 {
+		r.Unresolved(cons+" / WAL.nextSequence", "not found")
+		return
+	}
+	isStore := func(i ssa.Instruction) bool {
+		st, ok := i.(*ssa.Store)
+		return ok && fieldVarOf(st.Addr) == fld
+	}
+	hasStore := func(f *ssa.Function) bool {
+		found := false
+		AllInstrs(f, false, func(_ *ssa.Function, ins ssa.Instruction) {
+			if isStore(ins) {
+				found = true
+			}
+		})
+		return found
+	}
+	if !hasStore(fn) {
+		// the store lives in a same-receiver helper that is called unconditionally (possibly from a deferred closure):
+		// judge the helper, and require that every exit of UpdateNextSequence lies behind the call
+		var host *ssa.Function
+		var site ssa.Instruction
+		AllInstrs(fn, true, func(in *ssa.Function, ins ssa.Instruction) {
+			ci, ok := ins.(ssa.CallInstruction)
+			if !ok || host != nil {
+				return
+			}
+			h := ci.Common().StaticCallee()
+			if h == nil || len(h.Blocks) == 0 || recvTypeName(h) != recvTypeName(fn) || len(h.Params) < 2 || !hasStore(h) {
+				return
+			}
+			if in == fn {
+				host, site = h, ins
+				return
+			}
+			for _, b := range fn.Blocks { // a closure of fn: where is it deferred / called?
+				for _, x := range b.Instrs {
+					if d, ok := x.(ssa.CallInstruction); ok {
+						if mc, ok := d.Common().Value.(*ssa.MakeClosure); ok && mc.Fn == ssa.Value(in) {
+							host, site = h, x
+						}
+					}
+				}
+			}
+		})
+		if host == nil {
+			r.Undecided(cons, c.FnPos(fn), "no store to the counter in UpdateNextSequence or in a helper it calls")
+			return
+		}
+		for _, ret := range Returns(fn) {
+			if !Dominates(site, ret) {
+				r.Bad(cons, c.InsPos(ret), "UpdateNextSequence can return without calling "+FnName(host)+", which holds the store to the counter: the hand-over is dropped on that path")
+				return
+			}
+		}
+		fn = host
+	}
+	p := ssa.Value(fn.Params[1])
+	notLarger := func(cond ssa.Value) (bool, bool) { // edges on which param <= counter: outside the rule
+		bo, ok := cond.(*ssa.BinOp)
+		if !ok {
+			return false, false
+		}
+		x, y := stripConv(bo.X), stripConv(bo.Y)
+		switch {
+		case x == p && isLoadOfField(y, fld):
+			switch bo.Op {
+			case token.GTR:
+				return false, true
+			case token.LEQ:
+				return true, false
+			}
+		case y == p && isLoadOfField(x, fld):
+			switch bo.Op {
+			case token.LSS:
+				return false, true
+			case token.GEQ:
+				return true, false
+			}
+		}
+		return false, false
+	}
+	var rets []ssa.Instruction
+	for _, ret := range Returns(fn) {
+		rets = append(rets, ret)
+	}
+	bad, path := MustPassE(fn, rets, isStore, PruneFactEdges(notLarger))
+	if bad != nil {
+		r.Bad(cons, c.InsPos(bad), "UpdateNextSequence can return without storing a value that IS larger than the counter: the hand-over from the old log (rotation) or from recovery is dropped for the inputs this exit selects, the new log keeps its initial counter and the next acknowledged write is stamped 1 again", c.PathString(path)...)
+		return
+	}
+	r.OK(cons, c.FnPos(fn), "the only way past the store is 'not larger than the counter'")
+}
+
+// ruleIndexKeyVerbatim (round 9): the reader routes a lookup with a floor search over the index keys, which is correct
+// only if every index key IS the first key of its block: a shortened key (a prefix "that only has to route") sorts
+// before keys of the PREVIOUS block that share the prefix, and those keys are then sought in the wrong block. The key
+// handed to the index block's builder must be the entry's FirstKey as stored — not a slice, a prefix or a transformation.
+func ruleIndexKeyVerbatim(c *Ctx, r *Reporter) {
+	r.Rule("index-key-is-the-first-key-verbatim", 1)
+	fk := c.Field("pkg/sstable", "IndexEntry", "FirstKey")
+	fn := c.Func("pkg/sstable", "IndexBuilder", "BuildIndex")
+	cons := "sstable.IndexBuilder.BuildIndex:index-key"
+	if fk == nil || fn == nil {
+		r.Unresolved("sstable.IndexBuilder.BuildIndex / IndexEntry.FirstKey", "not found")
+		return
+	}
+	n := 0
+	var bad ssa.Instruction
+	for _, h := range withSameReceiverHelpers(fn) {
+		call, ok := h.ins.(*ssa.Call)
+		if !ok || call.Call.StaticCallee() == nil || recvTypeName(call.Call.StaticCallee()) != "block.Builder" || len(call.Call.Args) < 3 {
+			continue
+		}
+		switch call.Call.StaticCallee().Name() {
+		case "Add", "AddWithSequence":
+		default:
+			continue
+		}
+		n++
+		var verbatim func(v ssa.Value, d int) bool
+		verbatim = func(v ssa.Value, d int) bool {
+			if d > 4 {
+				return false
+			}
+			if isLoadOfField(v, fk) {
+				return true
+			}
+			switch x := v.(type) {
+			case *ssa.Phi:
+				for _, e := range x.Edges {
+					if !verbatim(e, d+1) {
+						return false
+					}
+				}
+				return true
+			case *ssa.Call:
+				switch staticName(x) {
+				case "bytes.Clone", "slices.Clone":
+					return verbatim(x.Call.Args[0], d+1)
+				}
+			}
+			return false
+		}
+		if !verbatim(call.Call.Args[1], 0) {
+			bad = h.at
+		}
+	}
+	if n == 0 {
+		r.Undecided(cons, c.FnPos(fn), "no call of the index block builder found")
+		return
+	}
+	r.Check(bad == nil, cons, func() string {
+		if bad != nil {
+			return c.InsPos(bad)
+		}
+		return c.FnPos(fn)
+	}(), "the index block is built from the entries' FirstKey as stored",
+		"the key handed to the index block is not the entry's FirstKey as stored (a slice, a prefix, a transformation of it): the reader's floor search over the index is exact only for the real first keys — a shortened key sorts before keys of the previous block that share the prefix, which are then sought in the wrong block (Seek skips them, Get says not found)")
+}
+
+// ruleEveryFilterLoaded (round 9): Reader.Get skips a block for which it finds no filter (`shouldSkip` starts true), so
+// a reader that has filters at all must have the filter of EVERY block: the loop in OpenReader that loads them may end
+// only because the filter section is exhausted (or unreadable) — never because "enough" filters are resident. A bound
+// by count, cache size or memory turns every key of the later blocks into not-found.
+func ruleEveryFilterLoaded(c *Ctx, r *Reporter) {
+	r.Rule("every-block-filter-is-loaded", 1)
+	fn := c.Func("pkg/sstable", "", "OpenReader")
+	bf := c.Field("pkg/sstable", "Reader", "bloomFilters")
+	cons := "sstable.OpenReader:filter-loop"
+	if fn == nil || bf == nil {
+		r.Unresolved("sstable.OpenReader / Reader.bloomFilters", "not found")
+		return
+	}
+	var loop *GenericLoop
+	for _, l := range GenericLoops(fn) {
+		for _, b := range fn.Blocks {
+			if !l.Contains(b) {
+				continue
+			}
+			for _, ins := range b.Instrs {
+				if st, ok := ins.(*ssa.Store); ok && fieldVarOf(st.Addr) == bf {
+					if loop == nil || loop.Contains(l.Header) { // innermost
+						loop = l
+					}
+				}
+			}
+		}
+	}
+	if loop == nil {
+		r.Undecided(cons, c.FnPos(fn), "no loop that appends to Reader.bloomFilters found in OpenReader")
+		return
+	}
+	var mentions func(v ssa.Value, d int) bool
+	mentions = func(v ssa.Value, d int) bool {
+		if d > 6 || v == nil {
+			return false
+		}
+		if la := lenArgOf(v); la != nil {
+			if isLoadOfField(la, bf) || strings.Contains(Path(la), "bloomFilters") {
+				return true
+			}
+		}
+		switch x := v.(type) {
+		case *ssa.BinOp:
+			return mentions(x.X, d+1) || mentions(x.Y, d+1)
+		case *ssa.UnOp:
+			return mentions(x.X, d+1)
+		case *ssa.Convert:
+			return mentions(x.X, d+1)
+		case *ssa.Phi:
+			for _, e := range x.Edges {
+				if mentions(e, d+1) {
+					return true
+				}
+			}
+		}
+		return false
+	}
+	var bad ssa.Instruction
+	for _, b := range fn.Blocks {
+		if !loop.Contains(b) || len(b.Instrs) == 0 {
+			continue
+		}
+		iff, ok := b.Instrs[len(b.Instrs)-1].(*ssa.If)
+		if !ok {
+			continue
+		}
+		leaves := false
+		for _, s := range b.Succs {
+			if !loop.Contains(s) {
+				leaves = true
+			}
+		}
+		if leaves && mentions(iff.Cond, 0) {
+			bad = iff
+		}
+	}
+	r.Check(bad == nil, cons, c.blockPos(loop.Header), "the loading loop ends only with the filter section (or on an unreadable entry)",
+		"the loop that loads the per-block filters can end because of HOW MANY filters are already loaded: Reader.Get skips a block it finds no filter for, so every key in the blocks behind the bound reads as not found (iteration and seeks still see them)")
+}
+
+// ruleServiceSuccessOnlyAfterEngine (round 9): whether a mutation is allowed is decided below the service — the engine
+// refuses writes on a read-only replica, the transaction refuses writes when read-only. A handler that can answer
+// "success" without having asked (an 'already deleted' fast path, a cache, an idempotency shortcut) answers for the
+// engine: on a replica the client is told its delete succeeded instead of getting the read-only error. Every success
+// exit of a mutating handler passes the embedded mutating call of its row.
+func ruleServiceSuccessOnlyAfterEngine(c *Ctx, r *Reporter) {
+	r.Rule("mutation-success-only-after-the-engine-call", 4)
+	for _, row := range [][2]string{{"Put", "Put"}, {"Delete", "Delete"}, {"TxPut", "Put"}, {"TxDelete", "Delete"}, {"CommitTransaction", "Commit"}} {
+		fn := c.Func("pkg/grpc/service", "KevoServiceServer", row[0])
+		cons := "service.KevoServiceServer." + row[0]
+		if fn == nil {
+			if row[0] == "CommitTransaction" {
+				continue
+			}
+			r.Unresolved(cons, "not found")
+			continue
+		}
+		exits := SuccessExits(fn, true)
+		bad, path := MustPass(fn, exits, func(i ssa.Instruction) bool {
+			call, ok := i.(*ssa.Call)
+			return ok && call.Call.IsInvoke() && call.Call.Method.Name() == row[1]
+		})
+		if bad != nil {
+			r.Bad(cons, c.InsPos(bad), "the handler can report success without having called the embedded "+row[1]+": whether the mutation is allowed (read-only replica, read-only transaction, closed engine) is decided there — a shortcut in front of it tells a client of a replica that its write succeeded instead of returning the read-only error", c.PathString(path)...)
+			continue
+		}
+		r.OK(cons, c.FnPos(fn), fmt.Sprintf("%d success exit(s), each behind the embedded %s", len(exits), row[1]))
+	}
 }
